@@ -823,3 +823,21 @@ package wire
 //@ iface (f wire.Frame) Length
 //@   ensures result >= 0
 //@   modifies nothing
+
+//@ func (h *ExtendedHeader) ParsedLen
+//@   props C05 C08
+//@   ensures result == h.parsedLen
+//@   modifies nothing
+//@ func (h *Header) toExtendedHeader
+//@   props C05 C08
+//@   ensures result != nil && result.Header.parsedLen == h.parsedLen && result.Header.Type == h.Type
+//@   fresh
+//@   modifies nothing
+//@ func (h *Header) ParseExtended
+//@   props C05 C08
+//@   arith bv
+//@   requires len(data) >= 1 && len(data) <= 1099511627776 && 0 <= h.parsedLen && h.parsedLen <= 1099511627776
+//@   ensures [header-or-error] implies(result0 == nil, result1 != nil)
+//@   ensures [parsed] implies(result0 != nil, 1 <= result0.PacketNumberLen && result0.PacketNumberLen <= 4 && result0.parsedLen == h.parsedLen + int64(result0.PacketNumberLen) && result0.parsedLen <= len(data) && 0 <= result0.PacketNumber)
+//@   ensures [reserved-bits-reported] implies(result0 != nil, iff(result1 != nil, data[0] & 12 != 0))
+//@   modifies nothing
